@@ -151,6 +151,11 @@ Inputs(which) ==
     [] which = "long" -> {<<[t |-> <<T, <<116, 50>>>>, d |-> q]>> : q \in RandomSubset(LongK, [1..24 -> LongNames])}
     \* the two rejection rules, and their accepted neighbours
     [] which = "reject" -> {<<[t |-> <<T>>, d |-> <<n>>], [t |-> <<n>>, d |-> dd]>> : n \in {<<97>>, <<98, SP, 98>>}, dd \in {<<>>, <<<<99>>>>, <<<<97>>>>}}
+                           \* several targets before the colon: the reappearing name first, in the middle, last; a third rule
+                           \cup {<<[t |-> <<T>>, d |-> <<<<97>>, <<100>>>>], [t |-> tt, d |-> dd]>> :
+                                   tt \in {<<<<97>>, <<120>>>>, <<<<120>>, <<97>>>>, <<<<120>>, <<97>>, <<121>>>>, <<<<120>>, <<121>>>>}, dd \in {<<>>, <<<<99>>>>, <<<<100>>>>, <<<<100>>, <<99>>>>}}
+                           \cup {<<[t |-> <<T>>, d |-> <<<<97>>>>], [t |-> <<<<120>>>>, d |-> <<<<98>>>>], [t |-> tt, d |-> <<<<99>>>>]>> :
+                                   tt \in {<<<<97>>, <<121>>>>, <<<<98>>, <<121>>>>, <<<<121>>, <<98>>>>, <<<<121>>>>}}
 
 Expected(rules) ==
   [ok |-> TRUE,
